@@ -231,7 +231,7 @@ def readSyncAnalog (conv : Int → Int → α) (s : Stream) (rows : List (List I
 
 /--     digital = self.read_sync_digital(_slice)
         analog = self.read_sync_analog(_slice)
-        if analog is not None and floor_percentile:
+        if analog is not None and floor_percentile and analog.size:
             analog -= np.percentile(analog, 10, axis=0)
         if analog is None:
             return digital
@@ -239,7 +239,7 @@ def readSyncAnalog (conv : Int → Int → α) (s : Stream) (rows : List (List I
         analog[np.where(analog >= threshold)] = 1
         return np.concatenate((digital, np.int8(analog)), axis=1)
 `pct` is `np.percentile(·, 10, axis=0)` (one value per analog column; `none` when it raises, which NumPy ≥ 2 does
-on a selection of zero samples), `toI8` the `np.int8` cast. -/
+on zero samples — the `analog.size` guard keeps it from being called there), `toI8` the `np.int8` cast. -/
 def readSync (conv : Int → Int → α) (pct : List (List α) → Option (List α)) (toI8 : α → Int)
     (ntr : Nat) (s : Stream) (rows : List (List Int)) (thr : α) (floor : Bool) :
     Except Err (List (List Int)) :=
@@ -251,7 +251,8 @@ def readSync (conv : Int → Int → α) (pct : List (List α) → Option (List 
     | .ok none => .ok (digital.map fun r => r.map Int.ofNat)
     | .ok (some analog) =>
       let floored : Option (List (List α)) :=
-        if floor then (pct analog).map fun P => analog.map fun r => List.zipWith (fun v p => v - p) r P
+        if floor ∧ analog.flatten.length ≠ 0 then
+          (pct analog).map fun P => analog.map fun r => List.zipWith (fun v p => v - p) r P
         else some analog
       match floored with
       | none => .error .indexError
